@@ -14,6 +14,7 @@ import (
 
 	"github.com/ajitpratap0/GoSQLX/pkg/gosqlx"
 	"github.com/ajitpratap0/GoSQLX/pkg/sql/ast"
+	"github.com/ajitpratap0/GoSQLX/pkg/sql/security"
 	"github.com/ajitpratap0/GoSQLX/pkg/sql/tokenizer"
 )
 
@@ -248,6 +249,12 @@ func runC09(c *runCtx) {
 		"UPDATE t SET a = (SELECT max(b) FROM (SELECT b FROM u) d JOIN v ON d.b = v.b) WHERE c IN (SELECT c FROM w)",
 		"DELETE FROM t WHERE a IN (SELECT d.a FROM (SELECT a FROM u) d JOIN v ON d.a = v.a)",
 		"SELECT CASE WHEN a = 1 THEN b ELSE c END, CAST(d AS INT), e BETWEEN 1 AND 2, f IN (1, 2), g[1], (h, i) FROM t GROUP BY a HAVING count(*) > 1",
+		// trees far larger than any internal work budget of the release code
+		"SELECT a FROM t WHERE x IN (" + strings.Repeat("7, ", 3000) + "7)",
+		"SELECT a FROM t WHERE x IN (" + strings.Repeat("b[100000], ", 2500) + "b[1])",
+		"SELECT " + strings.Repeat("f(a, 'x', 1) + ", 1500) + "1 FROM t",
+		"SELECT a FROM t WHERE " + strings.Repeat("a BETWEEN 1 AND 2 AND c LIKE 'z' AND ", 700) + "d IS NULL",
+		"SELECT " + strings.Repeat("CASE WHEN a THEN CAST(b AS INT) ELSE (c, d) END, ", 600) + "1 FROM t",
 	}
 	drawn := 0
 	for si, sqlText := range append(shared, corpus...) {
@@ -274,6 +281,17 @@ func runC09(c *runCtx) {
 				}
 				seen[addr] = k
 				drawn++
+				// … and indistinguishable from a freshly constructed one
+				gv := reflect.ValueOf(o).Elem()
+				for fi := 0; fi < gv.NumField(); fi++ {
+					if !isCleanField(gv.Field(fi)) {
+						res.fail("dirty-after-release:"+pe.typ.Name()+"."+pe.typ.Field(fi).Name,
+							fmt.Sprintf("after a tree was released, an object drawn from the %s pool still carries %s", pe.typ.Name(), pe.typ.Field(fi).Name),
+							map[string]any{"history": []string{"gosqlx.Parse", "ast.ReleaseAST", "Get" + strings.TrimPrefix(pe.site, "Put")}, "sql": truncate(sqlText, 300)},
+							map[string]any{"value": truncate(fmt.Sprintf("%+v", gv.Field(fi).Interface()), 200)})
+						break
+					}
+				}
 			}
 			// the drawn objects are not handed back: later statements start from what their own release pooled
 		}
@@ -424,6 +442,42 @@ func runC09(c *runCtx) {
 			}
 			ast.ReleaseAST(ta)
 			ast.ReleaseAST(tb)
+		}
+	}
+	// results of the injection scanner stay the caller's
+	{
+		texts := []string{"SELECT a FROM t WHERE id = 1 OR 1=1; DROP TABLE users", "SELECT a FROM t WHERE SLEEP(5) = 0 OR 'a'='a'", "SELECT a FROM t UNION SELECT NULL, NULL",
+			"SELECT LOAD_FILE('/etc/passwd')", "SELECT a FROM t WHERE x = x AND BENCHMARK(10, 1) = 0"}
+		show := func(r *security.ScanResult) string {
+			return fmt.Sprintf("%v|%d/%d/%d/%d/%d", findingsKey(r), r.TotalCount, r.CriticalCount, r.HighCount, r.MediumCount, r.LowCount)
+		}
+		for i, a := range texts {
+			for j, b := range texts {
+				if i == j {
+					continue
+				}
+				heldRaw := security.NewScanner().ScanSQL(a)
+				ta, ea := gosqlx.Parse(a)
+				tb, eb := gosqlx.Parse(b)
+				var heldTree *security.ScanResult
+				if ea == nil {
+					heldTree = security.NewScanner().Scan(ta)
+				}
+				s1 := show(heldRaw)
+				s2 := ""
+				if heldTree != nil {
+					s2 = show(heldTree)
+				}
+				_ = security.NewScanner().ScanSQL(b)
+				if eb == nil {
+					_ = security.NewScanner().Scan(tb)
+				}
+				res.count(fmt.Sprintf("held-scan|%d|%d", i, j), true)
+				if show(heldRaw) != s1 || (heldTree != nil && show(heldTree) != s2) {
+					res.fail("held-scan-result-modified", "a scan result held by the caller changed when another text / tree was scanned", map[string]any{"held_from": a, "then": b},
+						map[string]any{"before": []string{s1, s2}, "after": []string{show(heldRaw), show(heldTree)}})
+				}
+			}
 		}
 	}
 	// tokens handed to a parsing entry point stay the caller's: no entry point writes into them
